@@ -616,3 +616,24 @@ def check_propagate_labels(rep: Rep, w: Walker) -> None:
                 ok = has_guard(e.guards, ("cmp", "==", *sorted([ix, rootN], key=repr)))
                 detail = "label(i) is used without the guard root(i) == i"
         rep.ev("PROP-root-label", e, ok, detail)
+    # every node is assigned on every path: exactly one of the assignments is executed whatever the tests say
+    if stores and all(e.loops for e in stores):
+        import itertools
+        from .rules_premise import _atoms, _truth
+        base = set(w.loops[stores[0].loops[-1]].guards)
+        atoms = set()
+        for e in stores:
+            for g, _ in e.guards:
+                if (g, _) not in base:
+                    _atoms(g, atoms)
+        atoms = sorted(atoms, key=repr)
+        total = len(atoms) <= 6
+        for bits in itertools.product((False, True), repeat=len(atoms)) if total else ():
+            env = dict(zip(atoms, bits))
+            live = [e for e in stores if all(_truth(g, env) == pol for g, pol in e.guards if (g, pol) not in base)]
+            if len(live) != 1:
+                total = False
+                break
+        rep.fn("PROP-total", w.entry, "every node receives a propagated label (the cases root == i / root != i are both covered)",
+               total, "on some path through the loop body no (or more than one) predicted_label is assigned: those nodes "
+               "keep whatever label they had")
